@@ -15,13 +15,16 @@ Inductive rref :=
 
 Inductive c02case :=
 (* mode: bit 0 read-only, bit 1 full-write, bit 2 admin token configured and presented.
-   target: 0 = V (committed, the protected version), 1 = W (committed sibling), 2 = U (open child of V).
+   target: 0 = V (committed, the protected version), 1 = W (committed sibling), 2 = U (open child of V),
+           3 = X (committed HEAD of its own branch, protected like V).  The URL may name the node by its
+           uuid or by any other reference form (prefix, uuid:branch, :branch, branch~n): same verdict.
    m: index into probe_methods.  unv: the instance is unversioned.
    obs: 0 passed the gate, 1 refused by the gate (400 "locked node" / "read-only mode"), 2 no route (404).
    chg: bit 1 keys/values stamped with V changed, bit 2 unversioned instance properties changed,
         bit 4 anything in the data key space changed, bit 8 V's note/log/lock changed. *)
 | CReq (mode target : nat) (r : rref) (m : nat) (unv : bool) (obs chg : nat)
 | CCover (pkgs : list string) (cov : list (nat * nat))
+| CAlias (vforms xforms : nat)   (* how many other reference forms of V and of X were exercised *)
 (* read stability: the GET snapshot of V before and after a later history.  CStable: totals;
    CStabInst: one data instance; [known] counts differences of exactly the shape of the recorded
    finding with class [code] (7: ROI partition; 8: tarsupervoxels blobs) *)
@@ -74,6 +77,7 @@ Definition model_ok (c : c02case) : bool :=
   match c with
   | CReq mode target r m unv obs chg => model_ok_req mode target r m unv obs
   | CCover pkgs cov => cover_ok pkgs cov
+  | CAlias vforms xforms => Nat.leb 1 vforms && Nat.leb 7 xforms
   | CStable reads nonempty differ node => Nat.leb 60 nonempty
   | CStabInst code reads differ known => Nat.leb 1 reads
   end.
@@ -115,10 +119,11 @@ Definition spec_req (mode target : nat) (r : rref) (m : nat) (unv : bool) (obs c
       | RNode a => true
       | _ => false
       end in
-    if (bit chg 1 || bit chg 8) && negb (Nat.eqb target 0 && widened) then 2
+    let protected_target := Nat.eqb target 0 || Nat.eqb target 3 in
+    if (bit chg 1 || bit chg 8) && negb (protected_target && widened) then 2
     else if locked && negb widened && is_write && protected_route && Nat.eqb obs 0 then 1
     else if is_read && (bit chg 2 || bit chg 4) then 3
-    else if Nat.eqb target 0 && negb widened && state_route && (bit chg 2 || bit chg 4) then 4
+    else if protected_target && negb widened && state_route && (bit chg 2 || bit chg 4) then 4
     else if ro && negb admin && negb is_read && (Nat.eqb obs 0 || negb (Nat.eqb chg 0)) then 5
     else 0
   | _, _ => 0
@@ -128,6 +133,7 @@ Definition spec_class (c : c02case) : nat :=
   match c with
   | CReq mode target r m unv obs chg => spec_req mode target r m unv obs chg
   | CCover _ _ => 0
+  | CAlias _ _ => 0
   | CStable reads nonempty differ node => if negb (Nat.eqb differ 0) || node then 6 else 0
   | CStabInst code reads differ known =>
     if negb (Nat.eqb differ 0) then 6
